@@ -228,6 +228,10 @@ type finding struct {
 
 // judge decides one case; an empty result means "equal to the reference".
 func judge(plugin string, paths [][]string, input, expected *node, output string) []finding {
+	if output == encodeRunaway {
+		return []finding{{"plugin=" + plugin + " output=encoding-never-terminates (event tree corrupted)",
+			"after " + plugin + " the event's node chain contains a cycle: insane-json's Encode would run forever and exhaust the memory (found by a step-bounded dry run of Encode)"}}
+	}
 	act, err := parseJSON(output)
 	if err != nil {
 		return []finding{{"plugin=" + plugin + " output=invalid-json", fmt.Sprintf("output of %s is not valid JSON: %v", plugin, err)}}
